@@ -65,7 +65,7 @@ class _Sx(_Py):
         return core.sym_not(x)
 
     def false(self, c):
-        if isinstance(c, SymBool):
+        if type(c) is SymBool:
             return z3.is_false(z3.simplify(c.e))
         return not c
 
@@ -82,9 +82,9 @@ class _Z3(_Py):
         return z3.SignExt(32 - n, z3.Extract(n - 1, 0, v))
 
     def ite(self, c, a, b):
-        if isinstance(c, bool):
+        if type(c) is bool:
             return a if c else b
-        if isinstance(a, bool) or isinstance(b, bool) or z3.is_bool(a) or z3.is_bool(b):
+        if type(a) is bool or type(b) is bool or z3.is_bool(a) or z3.is_bool(b):
             return z3.If(c, _zb(a), _zb(b))
         return z3.If(c, _zv(a), _zv(b))
 
@@ -98,17 +98,17 @@ class _Z3(_Py):
         return z3.Not(_zb(x))
 
     def false(self, c):
-        if isinstance(c, bool):
+        if type(c) is bool:
             return not c
         return z3.is_false(z3.simplify(c))
 
 
 def _zb(x):
-    return z3.BoolVal(x) if isinstance(x, bool) else x
+    return z3.BoolVal(x) if type(x) is bool else x
 
 
 def _zv(x):
-    return z3.BitVecVal(x & M32, 32) if isinstance(x, int) else x
+    return z3.BitVecVal(x & M32, 32) if type(x) in (int, bool) else x
 
 
 PY, SX, Z3 = _Py(), _Sx(), _Z3()
@@ -117,7 +117,7 @@ PY, SX, Z3 = _Py(), _Sx(), _Z3()
 def domain_of(w):
     if type(w) is int or type(w) is bool:
         return PY
-    if isinstance(w, (SymInt, SymBool)):
+    if type(w) in (SymInt, SymBool):
         return SX
     if z3.is_bv(w):
         return Z3
@@ -577,14 +577,14 @@ class Z3Ops(_Z3):
     sym = True
 
     def val(self, v):
-        if isinstance(v, int):
+        if type(v) in (int, bool):
             return z3.BitVecVal(v & M32, 32)
-        if isinstance(v, (SymInt, SymBool)):
+        if type(v) in (SymInt, SymBool):
             return core.to_bv(v, 32)
         return v
 
     def conc(self, v):
-        if isinstance(v, int):
+        if type(v) in (int, bool):
             return v
         s = z3.simplify(v)
         return s.as_long() if z3.is_bv_value(s) else None
@@ -723,7 +723,7 @@ class State:
 def make_state(x, pc, mem=None, membytes=None):
     """x: 32 values (x[0] ignored); ints -> PY state, anything symbolic -> Z3 state"""
     allv = list(x[1:]) + [pc] + (list(membytes) if membytes is not None else [])
-    ops = PYOPS if all(type(v) is int for v in allv) and not isinstance(mem, ArrayMemory) else Z3OPS
+    ops = PYOPS if all(type(v) is int for v in allv) and not type(mem) is ArrayMemory else Z3OPS
     xs = [ops.val(0)] + [ops.val(v) for v in x[1:]]
     if mem is None:
         mem = LogMemory(ops, periodic_bg(ops, membytes if membytes is not None else [0] * 8))
